@@ -51,7 +51,7 @@ impl Knobs {
             _ => format!("pct:{}:{}", 1 + r.below(2), 100),
         };
         let rw = if r.chance(2, 3) { "writer" } else { "reader" }.to_string();
-        let shards = Some([1usize, 1, 2, 4, 16, 64, 256][r.below(7) as usize]);
+        let shards = Some([1usize, 1, 2, 3, 4, 6, 12, 16, 64, 256][r.below(10) as usize]);
         let spurious_pct = if r.chance(1, 3) { [1u8, 5, 20][r.below(3) as usize] } else { 0 };
         Knobs { policy, rw, shards, spurious_pct, ..Default::default() }
     }
